@@ -473,4 +473,8 @@ func TestC20(t *testing.T) {
 		probeBubble(t, id, func() { c19Probe(r, id) })
 	})
 	c19Prop = "C19"
+	// peers that connect and say nothing, or stop in the middle of a header: every handler ends at its stream timeout
+	c13StallProp = "C20"
+	forCases(4, 206, "t", func(i int, r *rng, id string) { c13Stall(r, id) })
+	c13StallProp = "C13"
 }
